@@ -256,19 +256,26 @@ func (t *ipTransport) addAccessory(a *accessory.Accessory) {
 			// all listeners are notified. Since we don't track which client is interested in
 			// which characteristic change event, we send them to all active connections.
 			onConnChange := func(conn net.Conn, c *characteristic.Characteristic, new, old interface{}) {
-				t.notifyListener(a, c, conn)
+				t.notifyListener(a, c, new, conn)
 			}
 			c.OnValueUpdateFromConn(onConnChange)
 
 			onChange := func(c *characteristic.Characteristic, new, old interface{}) {
-				t.notifyListener(a, c, nil)
+				t.notifyListener(a, c, new, nil)
 			}
 			c.OnValueUpdate(onChange)
 		}
 	}
 }
 
-func (t *ipTransport) notifyListener(a *accessory.Accessory, c *characteristic.Characteristic, except net.Conn) {
+// notifyListener sends the value of a change to the subscribed connections. The value of the
+// characteristic may have changed again by now – which is another change with another notification.
+func (t *ipTransport) notifyListener(a *accessory.Accessory, c *characteristic.Characteristic, value interface{}, except net.Conn) {
+	if c.IsReadable() == false {
+		// the value which was written is not disclosed
+		value = c.Value
+	}
+
 	conns := t.context.ActiveConnections()
 	for _, conn := range conns {
 		if conn == except {
@@ -284,7 +291,7 @@ func (t *ipTransport) notifyListener(a *accessory.Accessory, c *characteristic.C
 			continue
 		}
 
-		resp, err := hap.NewCharacteristicNotification(a, c)
+		resp, err := hap.NewCharacteristicValueNotification(a, c, value)
 		if err != nil {
 			log.Info.Panic(err)
 		}
